@@ -16,7 +16,7 @@ from .c02 import corr_modules, lean_extra
 ASPECTS = ("flow", "err", "fires", "counts", "starts")
 CHECKS = ("sem", "early")
 SIGS_A = ("early-callback", "failed-callback")
-SIGS_B = ("early-callback",)
+SIGS_B = ("early-callback", "failed-callback")
 
 CORPUS_A = [
     {"mode": "async", "flavour": "coro", "nodes": [{"kind": "source", "ups": []}, {"kind": "sink", "mode": "async", "ups": [0]}],
@@ -39,7 +39,7 @@ def run(ctx):
     n = 150 if not ctx.thorough() else 5000
     graphcheck.run_family(ctx, n, ASPECTS, CHECKS, SIGS_A, corpus=CORPUS_A, flavours=("future", "coro", "tornado"),
                           fail_prob=0.15, p_sinkfail=0.15)
-    A.sweep(ctx, n, A.ALL_KINDS, ["early"], SIGS_B, corpus=CORPUS_B)
+    A.sweep(ctx, n, A.ALL_KINDS, ["early"], SIGS_B, corpus=CORPUS_B, opts={"p_jobfail": 0.25})
     for m in corr_modules():
         m.run(ctx, "C04", 40 if not ctx.thorough() else 1500)
     ctx.coverage["rule"] = ("(A) graph-family generator, both modes, 15% failing functions / failing consumers, every emission with a fresh counter; "
@@ -52,7 +52,7 @@ def run(ctx):
 def replay(ctx, data):
     ctx.audit(extra_modules=lean_extra())
     case = data["case"]
-    if any(op["op"] in ("advance", "settle", "jobdone") for op in case["ops"]) or any(n["kind"] in ac.HOLDING for n in case["nodes"]):
+    if any(op["op"] in ("advance", "settle", "jobdone", "jobfail") for op in case["ops"]) or any(n["kind"] in ac.HOLDING for n in case["nodes"]):
         ac.evaluate(ctx, case, ac.rerun(case), ["early"], SIGS_B)
     else:
         graphcheck.replay_case(ctx, case, ASPECTS, CHECKS, SIGS_A)
